@@ -10,3 +10,4 @@ import BU.Properties.C20
 #print axioms C20.sign_eq_spec
 #print axioms C20.sign_ok_verifies
 #print axioms C20.sign_never_fails
+#print axioms C20.sign_never_fails_unconditional
